@@ -13,13 +13,14 @@ from symx.stubs import stubbed
 META = dict(
     bounds=dict(
         quick="programs gaussian/orca (+unknown); 1, 2 and 40 atoms (two symbolic probe atoms, concrete filler) with "
-              "elements from {1, 2, 10, 11, 54, 99, 100, 118}; all real coordinates that fit the 10.6f column, all "
+              "elements from {1, 2, 10, 11, 54, 99, 100, 118}; all real coordinates that fit the 10.6f column, and (jobs wide-coordinates, one atom) "
+              "coordinates in (-1e4, 1e5) angstrom that make the printed field one or two characters wider; all "
               "real charge in [-20, 20] and spin polarisation in [-8, 8] (set, absent, or derived from restricted "
               "orbitals with symbolic occupations); every run type incl. None and upper case; default template and 3 user "
               "templates using subsets of the fields; custom atom_line callback; keyword fields overriding defaults; "
               "template with an unknown field",
         thorough="as quick with 200 atoms"),
-    outside=["coordinates that overflow the 10.6f column", "digit-level rounding of the printed coordinates"],
+    outside=["coordinates beyond (-1e4, 1e5) angstrom", "digit-level rounding of the printed coordinates"],
     assumptions=["str.format on symbolic numbers yields placeholder tokens (symx.tokens)", "int/abs/np.round modelled on "
                  "terms (truncation, absolute value, round-half-even)", "exact real arithmetic",
                  "nearest integer: either neighbour accepted at exact ties"],
@@ -106,7 +107,7 @@ def _parse(program, tname, text, natom):
 
 
 def h_write_input(ctx, program="gaussian", natom=2, tname="default", chg="set", spin="set", custom_atom_line=False,
-                  twin=False):
+                  twin=False, wide=False):
     import iodata.api as api
     import iodata.inputs.common as common
     import iodata.inputs.gaussian as gmod
@@ -115,7 +116,11 @@ def h_write_input(ctx, program="gaussian", natom=2, tname="default", chg="set", 
     import iodata.orbitals as O
     import iodata.attrutils as A
     from iodata.utils import FileFormatError, WriteInputError
-    zmenu = [1, 2, 10, 11, 54, 99, 100, 118]
+    zmenu = [1, 10, 118] if wide else [1, 2, 10, 11, 54, 99, 100, 118]
+    if wide:
+        # coordinates wider than the default column: the fields grow (Python formatting) and must stay separated
+        ctx.scratch["width_policy"] = "over"
+        ctx.scratch["full_budget"] = 3
     with stubbed(api, common, gmod, omod, I, O, A):
         # molecule: probe atoms symbolic, filler concrete
         probes = sorted({0, natom - 1})
@@ -127,7 +132,7 @@ def h_write_input(ctx, program="gaussian", natom=2, tname="default", chg="set", 
         for n, p in enumerate(probes):
             atnums[p] = zmenu[(zsel + 3 * n) % len(zmenu)]
             for k in range(3):
-                coords[p, k] = ctx.real(f"x{p}_{k}", lo=-150, hi=150)
+                coords[p, k] = ctx.real(f"x{p}_{k}", lo=-18000, hi=180000) if wide else ctx.real(f"x{p}_{k}", lo=-150, hi=150)
         kw = dict(atnums=atnums, atcoords=coords)
         charge = spinpol = None
         mo = None
@@ -147,7 +152,8 @@ def h_write_input(ctx, program="gaussian", natom=2, tname="default", chg="set", 
             core_q[probes[0]] = ctx.real("qcore", lo=0, hi=30, default=7.0)
             kw["atcorenums"] = core_q
             kw["nelec"] = ctx.real("nelec", lo=0, hi=60, default=8.0)
-        run_type = ctx.choice([None, "energy", "energy_force", "opt", "scan", "freq", "OPT", "Freq"], label="run_type")
+        run_type = ctx.choice([None, "opt"] if wide else [None, "energy", "energy_force", "opt", "scan", "freq", "OPT", "Freq"],
+                              label="run_type")
         lot, title = ctx.choice([(None, None), ("B3LYP", "my title here")], label="lot,title")
         kw["run_type"] = run_type
         kw["lot"] = lot
@@ -200,7 +206,9 @@ def h_write_input(ctx, program="gaussian", natom=2, tname="default", chg="set", 
             ctx.oblige("atom-symbol", line[:3].strip() == NUM2SYM[int(atnums[i])] and line[3] == " ", cls=cls,
                        detail=f"Z={atnums[i]} line={line[:4]!r}")
             w = line[4:].split()
-            ctx.oblige("three-coordinates", len(w) == 3, cls=cls)
+            ctx.oblige("three-coordinates", len(w) == 3, cls=cls, detail=repr(line) if ctx.mode == "conc" else "")
+            if len(w) != 3 or line[3] != " ":
+                continue
             for k in range(3):
                 got = _num(w[k], "float", ctx)
                 want = coords[i, k] / ANGSTROM + (1.0 if twin and k == 0 else 0.0)
@@ -260,6 +268,8 @@ def jobs(tier):
                        dict(program=program, natom=big, tname="default"), budget_s=600, max_validate=3))
         out.append(job("C19", f"write_input[{program},custom-atom-line]", M, "h_write_input",
                        dict(program=program, natom=2, tname="default", custom_atom_line=True), max_validate=5))
+        out.append(job("C19", f"write_input[{program},wide-coordinates]", M, "h_write_input",
+                       dict(program=program, natom=1, tname="default", wide=True), budget_s=300, max_validate=6))
     out.append(job("C19", "write_input[unknown-program]", M, "h_write_input", dict(program="nwchem", natom=1),
                    max_validate=3))
     out.append(job("C19", "write_input[twin]", M, "h_write_input", dict(program="orca", natom=1, twin=True),
